@@ -35,7 +35,7 @@ APPLICABLE = {
     'key': SIG_MUTS + _KEYSUBJ + KEY_MUTS,
     'subkey': SIG_MUTS + _KEYSUBJ + ['subkey-other', 'subkey-swap-roles', 'subkey-material'] + KEY_MUTS,
 }
-LABEL_KIND = {'doc': 'doc', 'doc-msg': 'doc', 'text': 'text', 'text-cleartext': 'text', 'standalone': 'none', 'timestamp': 'none',
+LABEL_KIND = {'doc': 'doc', 'doc-msg': 'doc', 'msg-u': 'doc', 'msg-t': 'doc', 'text': 'text', 'text-cleartext': 'text', 'standalone': 'none', 'timestamp': 'none',
               'cert-10': 'cert', 'cert-11': 'cert', 'cert-12': 'cert', 'cert-13': 'cert', 'cert-ua': 'cert', 'cert-self': 'cert',
               'attest': 'cert', 'rev-uid': 'cert', 'direct-self': 'key', 'direct-3rd': 'key', 'revoker': 'key', 'rev-key': 'key',
               'bind': 'subkey', 'bind-signing': 'subkey', 'rev-subkey': 'subkey', 'pkbind-19': 'subkey'}
@@ -338,8 +338,8 @@ def _inside_carrier(t, m, where):
     import pgpy
     v = None
     try:
-        if t.label in ('doc-msg',):
-            lit = wire.build_packet(11, grammar.build_literal(0x62, b'', 0, m.doc))
+        if t.label in ('doc-msg', 'msg-u', 'msg-t'):
+            lit = wire.build_packet(11, grammar.build_literal({'doc-msg': 0x62, 'msg-u': 0x75, 'msg-t': 0x74}[t.label], b'', 0, m.doc))
             s = rsig.parse_sig_body(m.sig)
             blob = lit + wire.build_packet(2, m.sig)
             msg = pgpy.PGPMessage.from_blob(blob)
@@ -378,7 +378,7 @@ def evaluate(case, rec):
         app = APPLICABLE[LABEL_KIND[label]]
         case = dict(case, mut=app[case['mut'] % len(app)])
     base_label = 'bind-signing' if label == 'pkbind-19' else label
-    subkey = case['subkey'] if base_label in ('doc', 'doc-msg', 'text', 'text-cleartext', 'standalone', 'timestamp') else None
+    subkey = case['subkey'] if base_label in ('doc', 'doc-msg', 'msg-u', 'msg-t', 'text', 'text-cleartext', 'standalone', 'timestamp') else None
     if subkey == case['kid'] or (subkey and keypool.pool()[subkey]['alg'] == 1 and keypool.pool()[case['kid']]['alg'] == 1 and False):
         subkey = None
     doc = bytes.fromhex(case['doc']) if isinstance(case['doc'], str) else case['doc']
